@@ -546,8 +546,8 @@ pub fn run(ctx: &Ctx) -> i32 {
     let specs2 = [ThreadSpec { entry: Entry::InPlace, k: 1, salt: 1 }, ThreadSpec { entry: Entry::Immut, k: 2, salt: 2 }];
     let specs2b = [ThreadSpec { entry: Entry::OutOfPlace, k: 2, salt: 3 }, ThreadSpec { entry: Entry::Process, k: 1, salt: 4 }];
     let specs3 = [ThreadSpec { entry: Entry::InPlace, k: 1, salt: 1 }, ThreadSpec { entry: Entry::Immut, k: 1, salt: 2 }, ThreadSpec { entry: Entry::OutOfPlace, k: 1, salt: 5 }];
-    let budget_op: u64 = t.pick(20_000, 600_000);
-    let budget_chunk: u64 = t.pick(25_000, 600_000);
+    let budget_op: u64 = t.pick(10_000, 600_000);
+    let budget_chunk: u64 = t.pick(60_000, 600_000);
     let results: Vec<Vec<HarnessResult>> = par_map(&jobs, |_, job| {
         let mut out = Vec::new();
         match &job.0 {
